@@ -51,7 +51,6 @@ void GMGPolar::implicitlyExtrapolatedMultigrid_V_Cycle(const int level_depth, Ve
 
         // res_ex = 4/3 * P_ex^T (f_l - A_l*u_l) - 1/3 * (f_{l-1} - A_{l-1}* Inject(u_l))
         linear_combination(next_level.residual(), 4.0 / 3.0, next_level.error_correction(), -1.0 / 3.0);
-        VERIF_OP2("Lin", level_depth + 1, next_level.residual(), next_level.error_correction());
 
         auto end_MGC_residual = std::chrono::high_resolution_clock::now();
         t_avg_MGC_residual += std::chrono::duration<double>(end_MGC_residual - start_MGC_residual).count();
@@ -82,14 +81,12 @@ void GMGPolar::implicitlyExtrapolatedMultigrid_V_Cycle(const int level_depth, Ve
 
         // res_ex = 4/3 * P_ex^T (f_l - A_l*u_l) - 1/3 * (f_{l-1} - A_{l-1}* Inject(u_l))
         linear_combination(next_level.error_correction(), 4.0 / 3.0, next_level.residual(), -1.0 / 3.0);
-        VERIF_OP2("Lin", level_depth + 1, next_level.error_correction(), next_level.residual());
 
         auto end_MGC_residual = std::chrono::high_resolution_clock::now();
         t_avg_MGC_residual += std::chrono::duration<double>(end_MGC_residual - start_MGC_residual).count();
 
         /* Step 2: Set starting error to zero. */
         assign(next_level.residual(), 0.0);
-        VERIF_OP1("Zero", level_depth + 1, next_level.residual());
 
         /* Step 3: Solve for the error by recursively calling the multigrid cycle. */
         multigrid_V_Cycle(level_depth + 1, next_level.residual(), next_level.error_correction(), next_level.solution());
@@ -100,7 +97,6 @@ void GMGPolar::implicitlyExtrapolatedMultigrid_V_Cycle(const int level_depth, Ve
 
     /* Compute the corrected approximation: u = u + error */
     add(solution, residual);
-    VERIF_OP2("Add", level_depth, solution, residual);
 
     auto start_MGC_postSmoothing = std::chrono::high_resolution_clock::now();
 
